@@ -10,7 +10,7 @@ class AnchorMissing(Exception):
 
 
 # rules that the closure view may overrule (see Check.finish)
-SECOND_OPINION_RULES = [r'^C18-SIB-listing\|find_sub_element_internal\|match-needs-name-and-version$', r'^C06-MUST-every-referrer\|move_element_full\|rewrite-follows-the-prefix-match$', r'^C04-MUST-unique\|make_unique_item_name\|loops-until-free$', r'^C07-SIB-named\|', r'^C09-MUST-rollback\|', r'^C10-MUST-rollback\|', r'^C10-SIB-view\|', r'^C02-SIB-header\|', r'^C08-FLOW-propagate\|', r'^C09-MUST-reject\|.*\|error-propagated$']
+SECOND_OPINION_RULES = [r'^C07-SIB-attrversion\|ElementRaw::set_attribute_(string|internal)\|store-behind-version-test$', r'^C18-SIB-listing\|find_sub_element_internal\|match-needs-name-and-version$', r'^C06-MUST-every-referrer\|move_element_full\|rewrite-follows-the-prefix-match$', r'^C04-MUST-unique\|make_unique_item_name\|loops-until-free$', r'^C07-SIB-named\|', r'^C09-MUST-rollback\|', r'^C10-MUST-rollback\|', r'^C10-SIB-view\|', r'^C02-SIB-header\|', r'^C08-FLOW-propagate\|', r'^C09-MUST-reject\|.*\|error-propagated$']
 
 
 class Check:
